@@ -31,7 +31,7 @@ METHODS = {
     "StdVectorBase": ["freeStorage", "shrink", "shrink_impl", "grow", "swap_impl", "move_construct", "move_assign"],
     "StaticVectorBase": ["swap_impl", "move_construct", "move_assign"],
 }
-LAYER_NAMES = ("adjustCapacity", "reserve", "resize", "assign", "append", "clear", "pop_back")
+LAYER_NAMES = ("adjustCapacity", "reserve", "resize", "assign", "append", "clear", "pop_back", "push_back", "emplace_back")
 PURE_MEMBERS = ("isSmall", "size", "capacity")                  # value-returning, translated by amc2coq (L0_<S>.v)
 MUTATORS = ("setSize", "incrSize", "decrSize")                  # words -> words, translated by amc2coq
 POINTER_ACCESSORS = ("ptr", "dyn", "begin", "end", "cbegin", "data", "dynStorage")
@@ -326,6 +326,10 @@ class Gen:
             if r["kind"] in ("CXXNullPtrLiteralExpr", "GNUNullExpr", "ImplicitValueInitExpr"):
                 return "", s
             raise U("_storage = " + r["kind"])
+        if lhs["kind"] == "DeclRefExpr" and A.ty(lhs).endswith("*"):
+            if r["kind"] in ("CallExpr",):
+                return self.call(r, s, allow_pure_pointer=True)
+            return "", s   # pointer arithmetic on begin() / dynStorage(): no effect, no bookkeeping
         if lhs["kind"] == "DeclRefExpr" and is_int(lhs):
             nm = lhs["referencedDecl"]["name"]
             if r["kind"] == "CallExpr" and strip(r["inner"][0]).get("referencedDecl", {}).get("name") == "SafeNextCapacity":
@@ -400,6 +404,12 @@ class Gen:
             return "Some " + s.tup(self.two, final=True)
         if is_assert(h):
             return self.block(rest, s)
+        if k == "CXXTryStmt":
+            # handlers of these functions destroy a temporary and rethrow: the exceptional outcome is None either way
+            for hd in h["inner"][1:]:
+                if not any(x.get("kind") == "CXXThrowExpr" for x in A.walk(hd)):
+                    raise U("catch handler that does not rethrow")
+            return self.block([h["inner"][0]] + rest, s)
         if k == "IfStmt":
             c = ex(h["inner"][0], s, self.cx)
             thenb = h["inner"][1]
@@ -480,6 +490,9 @@ def main():
                 f.write("template class amc::vec::DynamicVector<double, std::allocator<double>, %s, true>;\n" % ct)
                 f.write("template class amc::vec::DynamicVector<double, std::allocator<double>, %s, false>;\n" % ct)
                 f.write("template class amc::vec::StaticVector<double, %s, amc::vec::ExceptionGrowingPolicy>;\n" % ct)
+                f.write("template double& amc::vec::DynamicVector<double, std::allocator<double>, %s, true>::emplace_back<const double&>(const double&);\n" % ct)
+                f.write("template double& amc::vec::DynamicVector<double, std::allocator<double>, %s, false>::emplace_back<const double&>(const double&);\n" % ct)
+                f.write("template double& amc::vec::StaticVector<double, %s, amc::vec::ExceptionGrowingPolicy>::emplace_back<const double&>(const double&);\n" % ct)
                 f.write("template class amc::vec::VectorImpl<double, std::allocator<double>, %s, true, amc::vec::DynamicGrowingPolicy>;\n" % ct)
                 f.write("template class amc::vec::VectorImpl<double, std::allocator<double>, %s, false, amc::vec::DynamicGrowingPolicy>;\n" % ct)
                 f.write("template class amc::vec::VectorImpl<double, amc::vec::EmptyAlloc, %s, true, amc::vec::ExceptionGrowingPolicy>;\n" % ct)
@@ -539,18 +552,20 @@ def main():
                         return False
                     return True
 
-                def find_method(clsname, mname, nparams, second=None):
+                def find_method(clsname, mname, nparams, second=None, first=None):
                     for o in asts.get(clsname, []):
                         for spec in A.walk(o):
                             if spec.get("kind") != "ClassTemplateSpecializationDecl" or spec.get("name") != clsname or not spec_ok(spec, clsname):
                                 continue
-                            for m in spec.get("inner", []):
+                            for m in A.walk(spec):
                                 if m.get("kind") != "CXXMethodDecl" or m.get("name") != mname:
                                     continue
                                 ps = [p for p in m["inner"] if p["kind"] == "ParmVarDecl"]
                                 if len(ps) != nparams or not any(c.get("kind") == "CompoundStmt" for c in m.get("inner", [])):
                                     continue
-                                if second is not None and second not in ps[1]["type"]["qualType"]:
+                                if second is not None and (second not in ps[1]["type"]["qualType"] or A.ty(ps[0]) not in INT_TYPES):
+                                    continue
+                                if first is not None and first not in ps[0]["type"]["qualType"]:
                                     continue
                                 return m
                     return None
@@ -566,10 +581,15 @@ def main():
                     ("VectorImpl", "append", 2, "const", "append_nv"),
                     ("VectorImpl", "clear", 0, None, "clear"),
                     ("VectorImpl", "pop_back", 0, None, "pop_back"),
+                    ("VectorImpl", "push_back", 1, "FIRST:const", "push_back"),
+                    (dcls, "emplace_back", 1, "FIRST:const double &", "emplace_back"),
                 ]
                 for clsname, mname, nparams, second, gname in LAYER:
                     key = "%s.%s%s.%s" % (tag, clsname, "" if want is None else "<" + want + ">", gname)
-                    got = find_method(clsname, mname, nparams, second)
+                    if second and second.startswith("FIRST:"):
+                        got = find_method(clsname, mname, nparams, None, second[6:])
+                    else:
+                        got = find_method(clsname, mname, nparams, second)
                     if got is None:
                         summary["errors"][key] = "method not found in the AST"
                         continue
